@@ -264,6 +264,7 @@ theorem runSteps_head (pg : Pages) (rq : Req) (cached : Bool) (hm : rq.method = 
       | flatten => rfl
       | gzip => rfl
       | tee => rfl
+      | probe _ _ => rfl
     simp only [runSteps, h1, ih]
 
 theorem finalize_head (rq : Req) (s : St) : finalize rq s = finalize (asGet rq) s := rfl
